@@ -16,7 +16,8 @@ MODULE = 'txtorcon.torconfig'
 TRUSTED = [
     'parse_keywords result of a CONF_CHANGED payload is taken as given (keyword -> value / DEFAULT / list of values): its loop is covered in C13 (twin)',
     'A7 str.lower() uninterpreted (same function in code and spec); int() model; CommaList split(",") not under contract',
-    '_do_setup / bootstrap (long inlineCallbacks orchestration over Tor\'s answers) are NOT under contract: bounded twin only',
+    '_do_setup is under contract for a config/names answer naming one ordinary option (types Integer, CommaList, LineList; set / unset with / without a default); '
+    'its *PortLines and HiddenServiceOptions branches, longer answers and bootstrap: bounded twin only; the type\'s parse() on symbolic text is an uninterpreted function of (type, text)',
     'pyvc semantics; z3/cvc5',
 ]
 LEVEL = 'proof'
@@ -25,6 +26,9 @@ MANIFEST = {
     'technique': 'contract-based deductive verification of TorConfigType.parse per declared type, _find_real_name and the shape-preservation postcondition of the real _conf_changed (pyvc VCs, z3/cvc5); bounded CPython twin over option tables and CONF_CHANGED sequences through a scripted Tor',
     'text': 'Proved: Boolean.parse(s) = (int(s) != 0), Boolean_Auto.parse of the text auto is -1 (numeric inputs: twin), Integer.parse = int, LineList.parse of a list keeps '
             'every element (stripped) in order; _find_real_name returns a key of parsers/config equal to the name up to case when one exists, else the name; '
+            '_do_setup (one ordinary option of type Integer / CommaList / LineList): the declared type is recorded, the value is asked for by name, a set option stores the '
+            'type\'s parse of the reported text, an unset one the parse of its default (or the DEFAULT marker / an empty tracked list without one), list-typed options '
+            'become tracked lists reporting edits under that option; '
             '_conf_changed, for a reported scalar option, stores parse(value) (or the parsed default / DEFAULT marker when unset) and, for a list-valued option, '
             'stores a tracked list holding exactly the reported values whether Tor reported none, one or many - and touches no other option.',
     'level_note': 'Bounded (B, never counted as proved): attaching to a running Tor (_do_setup: every declared type x unset/empty/one/many x with/without config/defaults) '
@@ -204,8 +208,178 @@ def unit_conf_changed(is_list, reported, pending_edit=False):
     return run
 
 
+class StopSetup(Exception):
+    pass
+
+
+class SetupModels(T.ConfigModels):
+    """externals of TorConfig._do_setup for a config/names answer of one option: GETINFO config/defaults and GETCONF through
+    their contracts (C13), the type's parse() through its contract for symbolic text (C11/parse units), tracked lists"""
+    def __init__(self):
+        T.ConfigModels.__init__(self)
+        self.at_epilogue = None
+
+    def callable_(self, ex, path, obj, args, kw):
+        import txtorcon.torconfig as tc
+        if obj is tc._ListWrapper and isinstance(args[0], VOpaque):
+            w = VOpaque('tracked_parsed', ex.fresh_int(path, 'tr'))
+            self.glog_add(path, 'wrapped', (w, args[0], args[1]))
+            return [(path, w)]
+        return T.ConfigModels.callable_(self, ex, path, obj, args, kw)
+
+    def contract_for(self, ex, path, f, args, kw):
+        q = f.qualname
+        if q == 'TorConfig._get_defaults':
+            return [(path, VOpaque('d_defaults', 1))]
+        if q.endswith('.parse') and f.bound is not None and isinstance(f.bound, VInst) and not concrete_of(args[0])[0]:
+            # contract of the type's parse on text: an uninterpreted function of (type, text); the parse functions
+            # themselves are the C11/parse units
+            r = VOpaque('parsed', ex.fresh_int(path, 'parsed'))
+            self.glog_add(path, 'parsed', (r, f.bound.cls.__name__, args[0]))
+            return [(path, r)]
+        return T.ConfigModels.contract_for(self, ex, path, f, args, kw)
+
+    def method(self, ex, path, recv, name, args, kw):
+        if isinstance(recv, VOpaque) and recv.kind == 'proto':
+            if name == 'get_conf':
+                self.glog_add(path, 'asked', args[0])
+                return [(path, VOpaque('d_getconf', 1))]
+            if name == 'get_info' and self.at_epilogue is not None:
+                # end of the option loop: state the obligations here and end this path (an exception class the code does not catch)
+                self.at_epilogue(ex, path)
+                return ex.raise_(path, KeyboardInterrupt, 'end of the option loop')
+        return T.ConfigModels.method(self, ex, path, recv, name, args, kw)
+
+    def split_hook(self, ex, path, s, args, kw):
+        if len(args) == 1 and concrete_of(args[0]) == (True, '\n') and z3.eq(s.t, z3.String('config_names_answer')):
+            return [(path, ex.new_list(path, [VStr('config/names='), VStr(z3.String('names_line'))]))]
+        if not args and z3.eq(s.t, z3.String('names_line')):
+            return [(path, ex.new_list(path, [VStr(z3.String('name')), path.heap[('g', 'type_word')]]))]
+        return T.ConfigModels.split_hook(self, ex, path, s, args, kw)
+
+    def compare(self, ex, path, op, a, b):
+        import ast
+        if isinstance(op, ast.Eq) and ((isinstance(a, VOpaque) and a.kind == 'parsed') or (isinstance(b, VOpaque) and b.kind == 'parsed')):
+            self.assumptions.add('the text of a set option does not parse to the single-element DEFAULT marker')
+            return [(path, z3.BoolVal(False))]
+        return T.ConfigModels.compare(self, ex, path, op, a, b)
+
+    def await_(self, ex, path, fr, v, node):
+        kind = v.kind if isinstance(v, VOpaque) else '?'
+        if kind == 'd_defaults':
+            return [(path, path.heap[('g', 'defaults')])]
+        if kind == 'd_getconf':
+            return [(path, ex.new_dict(path, [(VStr(z3.String('name')), path.heap[('g', 'reported')])]))]
+        return [(path, VOpaque('result', ex.fresh_int(path, 'res')))]
+
+
+def unit_do_setup(tname, vkind):
+    """tname: Integer | CommaList | LineList ; vkind: set | unset_default | unset_no_default"""
+    def run(ctx):
+        ctx.fn(MODULE, 'TorConfig._do_setup')
+        import txtorcon.torconfig as tc
+        ex = ctx.ex
+        path = ctx.new_path()
+        cfg = ex.new_inst(path, tc.TorConfig)
+        H = path.heap
+        o = cfg.oid
+        name = z3.String('name')
+        ctx.input('name', VStr(name))
+        path.assume(z3.Not(z3.SuffixOf(mk_str('PortLines'), name)))
+        path.assume(name != mk_str('HiddenServiceOptions'))
+        path.assume(z3.String('names_line') != mk_str('config/names='))
+        H[('g', 'type_word')] = VStr(tname)
+        v = z3.String('reported_text')
+        dflt = z3.String('default_text')
+        ctx.input('reported_text', VStr(v))
+        ctx.input('default_text', VStr(dflt))
+        path.assume(v != mk_str('DEFAULT'))
+        path.assume(z3.Length(v) > 0)
+        path.assume(z3.Not(z3.Contains(v, mk_str('\n'))))
+        H[('g', 'reported')] = VStr(v) if vkind == 'set' else VStr('DEFAULT')
+        H[('g', 'defaults')] = ex.new_dict(path, [(VStr(name), VStr(dflt))] if vkind == 'unset_default' else [])
+        H[('f', o, 'protocol')] = VOpaque('proto', 1)
+        H[('f', o, '_supports')] = ex.new_dict(path, [])
+        H[('f', o, 'parsers')] = ex.new_dict(path, [])
+        H[('f', o, 'config')] = ex.new_dict(path, [])
+        H[('f', o, 'unsaved')] = ex.new_dict(path, [])
+        from pyvc.sym import VSet
+        H[('f', o, 'list_parsers')] = VSet(z3.K(z3.StringSort(), z3.BoolVal(False)), z3.IntVal(0))
+        is_list = 'List' in tname
+        seen = {}
+
+        def epilogue(ex_, p):
+            seen['ok'] = True
+            cl = 'the value Tor returned parsed by the option\'s declared type, with unset options reported as their default'
+            parsers = p.heap[('dict', p.heap[('f', o, 'parsers')].did)]
+            okp = len(parsers) == 1 and isinstance(parsers[0][1], VInst) and parsers[0][1].cls.__name__ == tname
+            ctx.oblige('post.declared_type_recorded_for_the_option', p, zand(B(okp), parsers[0][0].t == name) if okp else B(False), clause=cl)
+            conf = p.heap[('dict', p.heap[('f', o, 'config')].did)]
+            okc = len(conf) == 1 and isinstance(conf[0][0], VStr)
+            ctx.oblige('post.option_listed_once_under_its_name', p, zand(B(okc), conf[0][0].t == name) if okc else B(False))
+            if not okc:
+                return
+            val = conf[0][1]
+            parsed = ctx.models.glog(p, 'parsed')
+            wrapped = ctx.models.glog(p, 'wrapped')
+            asked = ctx.models.glog(p, 'asked')
+            ctx.oblige('post.value_asked_for_by_name', p, zand(B(len(asked) == 1 and isinstance(asked[0], VStr)), asked[0].t == name) if len(asked) == 1 else B(False))
+
+            def is_parse_of(x, text):
+                hits = [pp for pp in parsed if pp[0] is x]
+                if len(hits) != 1 or hits[0][1] != tname or not isinstance(hits[0][2], VStr):
+                    return B(False)
+                return hits[0][2].t == text
+            if is_list:
+                lp = p.heap[('f', o, 'list_parsers')]
+                ctx.oblige('post.list_typed_option_is_registered_as_list', p, z3.Select(lp.t, name) if hasattr(lp, 't') else B(False))
+                if vkind == 'unset_no_default':
+                    ok = isinstance(val, VList) and len(ex.list_items(p, val)) == 0 and ('g', 'tracked', val.lid) in p.heap
+                    ctx.oblige('post.unset_list_without_default_reads_as_empty_tracked_list', p, B(ok), clause=cl)
+                else:
+                    text = v if vkind == 'set' else dflt
+                    hit = [w for w in wrapped if w[0] is val]
+                    ok = len(hit) == 1
+                    ctx.oblige('post.list_value_is_the_tracked_parse_of_the_reported_text_or_default', p,
+                               zand(B(ok), is_parse_of(hit[0][1], text)) if ok else B(False), clause=cl)
+                    if ok:
+                        cb = hit[0][2]
+                        okcb = isinstance(cb, VTuple) and len(cb.items) == 3 and isinstance(cb.items[2], VStr)
+                        ctx.oblige('post.in_place_edits_report_this_option', p, zand(B(okcb), cb.items[2].t == name) if okcb else B(False),
+                                   clause='list-valued options stay tracked lists so code that reads, edits and saves keeps working')
+            else:
+                if vkind == 'unset_no_default':
+                    ctx.oblige('post.unset_scalar_without_default_is_the_default_marker', p, B(concrete_of(val) == (True, tc.DEFAULT_VALUE)), clause=cl)
+                else:
+                    ctx.oblige('post.scalar_value_is_the_parse_of_the_reported_text_or_default', p,
+                               is_parse_of(val, v if vkind == 'set' else dflt), clause=cl)
+        ctx.models.at_epilogue = epilogue
+        ctx.cover('pre_satisfiable', path)
+        g = ex.getattr_v(path, cfg, '_do_setup')
+        try:
+            outs = ex.call(g[0][0], g[0][1], [VStr(z3.String('config_names_answer'))], {})
+            for p, r in outs:
+                if isinstance(r, Raise):
+                    if isinstance(r.exc, VInst) and r.exc.cls is KeyboardInterrupt:
+                        continue
+                    cname = r.exc.cls.__name__ if isinstance(r.exc, VInst) else '?'
+                    ctx.oblige('no_exception[%s]' % cname, p, B(False))
+        except StopSetup:
+            pass
+        if not seen:
+            ctx.oblige('reached_the_end_of_the_option_loop', path, B(False))
+    return run
+
+
+def make_models_for(unit_name):
+    return SetupModels() if '_do_setup' in unit_name else make_models()
+
+
 def units():
     out = [('C11/parse/%s' % k, unit_parse(k)) for k in ('Boolean', 'Boolean_Auto_auto', 'Integer', 'LineList_list')]
+    for tname in ('Integer', 'CommaList', 'LineList'):
+        for vk in ('set', 'unset_default', 'unset_no_default'):
+            out.append(('C11/_do_setup@%s/%s' % (tname, vk), unit_do_setup(tname, vk)))
     out += [('C11/_find_real_name/%s' % k, unit_find_real_name(k)) for k in ('first', 'second', 'none')]
     for is_list in (True, False):
         for rep in ('one', 'many', 'unset'):
